@@ -790,8 +790,13 @@ func c06Run(c *fw.Ctx, i int) {
 	}
 	joinWg.Wait()
 	if !waitProcessed() {
-		c.Violate("frames/stalled", "lal did not process all published messages within 10 s | "+desc, nil)
-		return
+		// 10 s without the last message being processed: on a loaded machine that is not yet a stall (seen once with two
+		// thorough sweeps running beside this check). Only a server that has still not caught up a minute later is reported.
+		c.Count("slow_to_process_last_message", 1)
+		if !srv.WaitFor(60*time.Second, func() bool { return hook != nil && hook.Count() >= sent }) {
+			c.Violate("frames/stalled", "lal did not process all published messages within 70 s | "+desc, nil)
+			return
+		}
 	}
 	// quiescence on all consumer sockets
 	quiet := func() {
